@@ -5,7 +5,7 @@ from .. import cv, gen, lib, ref
 from ..lib import call
 
 PROP = "C05"
-PLAN = {"quick": (1600, 300), "thorough": (25000, 3000)}
+PLAN = {"quick": (1600, 300), "thorough": (100000, 3600)}
 RULE = ("case = (curve, nodes to remove, tolerance, regime); regime a: the curve is an exact Boehm refinement (built by the "
         "reference model) of a coarser curve and the inserted knots are removed; regime b: generic curve, 1..mult copies "
         "of interior knots, tolerance in {default, 1e-9, 0, 1e-6, 1e-3, 1e-1, 10}; regime c: tolerance=None; plus "
